@@ -338,6 +338,73 @@ theorem bytesWriter_target (a : WAlloc) (ha : a.Sound) (s : Start) (hs : ∀ f, 
     show Match (gslice (heap1 v.obj) 0 v.len) _
     rw [f3]; exact hcontent
 
+/-- Bytes-backed writer, EVERY flush epoch.  Split any history at one of its Flushes:
+    `pre ++ [Flush] ++ ep` with `ep` flush-free.  That Flush starts the log over (`l0.items = []`:
+    neither the initial contents nor the earlier epochs are in it any more), the log at the end is
+    the run of `ep` from there, the next Flush succeeds, and
+    * if anything was allocated in this epoch (`w.buf ≠ nil`) the target `*buf` afterwards is exactly
+      the bytes written in THIS epoch — `[] ++ epoch k`, not `initial ++ everything`;
+    * if the buffer is still nil (nothing written, only Malloc(0)/empty WriteBinary) Flush is a
+      no-op and the target keeps what the previous epoch left there.
+    Together with `bytesWriter_target` (k = 1: initial contents ++ epoch 1) this is what the code does
+    for every k; the literal clause "initial contents followed by the written bytes" therefore FAILS
+    for histories with more than one non-empty epoch: `bytesWriter_target_all_epochs_fails` (F15). -/
+theorem bytesWriter_target_epochs (a : WAlloc) (ha : a.Sound) (s : Start) (hs : ∀ f, s ≠ .default f)
+    (pre ep : List WOp) :
+    let w := after a s (pre ++ .flush :: ep)
+    let l0 := specAfter s (pre ++ [.flush])
+    let l := specAfter s (pre ++ .flush :: ep)
+    l0.items = [] ∧ l = (specRun l0 ep).2 ∧
+    w.flush.1 = .ok () ∧
+    (w.buf ≠ none → Match w.flush.2.targetBytes l.unflushed) ∧
+    (w.buf = none → l.unflushed = [] ∧ w.flush.2.target = w.target) := by
+  intro w l0 l
+  have hdc0 : s.model.disableCache = true ∧ s.model.err = none := by
+    cases s with
+    | default f => exact absurd rfl (hs f)
+    | bytes i sp => exact ⟨rfl, rfl⟩
+    | bytesNil => exact ⟨rfl, rfl⟩
+  have hsplit : pre ++ .flush :: ep = (pre ++ [.flush]) ++ ep := by simp
+  refine ⟨?_, ?_, ?_⟩
+  · -- the Flush in the middle restarts the log
+    have hp : WSim (after a s pre) (specAfter s pre) := sim_after a ha s pre
+    obtain ⟨pdc, pe⟩ := bytes_run a ha s.model s.spec (sim_start s) hdc0.1 hdc0.2 pre
+    show (specRun s.spec (pre ++ [.flush])).2.items = []
+    rw [specRun_append]
+    simp only [specRun, specStep]
+    exact Log.flush_items_nil _ (hp.err.trans pe) (hp.sinkB pdc)
+  · show (specRun s.spec (pre ++ .flush :: ep)).2 = _
+    rw [hsplit, specRun_append]; rfl
+  · have h : WSim w l := sim_after a ha s _
+    obtain ⟨hdc, he⟩ := bytes_run a ha s.model s.spec (sim_start s) hdc0.1 hdc0.2 (pre ++ .flush :: ep)
+    cases hb : w.buf with
+    | none =>
+      rw [flush_nil w he hb]
+      refine ⟨rfl, fun hne => absurd rfl hne, fun _ => ⟨?_, rfl⟩⟩
+      have hlog : w.logical = [] := by simp [Wr.logical, hb]
+      have hm := h.content
+      rw [hlog] at hm
+      exact List.eq_nil_of_length_eq_zero (Match.length_eq hm).symm
+    | some v =>
+      obtain ⟨heap1, _, _, f3, _, hT, _, _⟩ := flush_some w h.inv he v hb
+      rw [hT hdc]
+      refine ⟨rfl, fun _ => ?_, fun hn => by cases hn⟩
+      show Match (gslice (heap1 v.obj) 0 v.len) _
+      rw [f3]; exact h.content
+
+/-- FINDING F15 (negation witness, evaluated by the kernel): a bytes writer over `[1,2]`, one byte
+    written and flushed, another byte written and flushed.  The literal clause of the property asks
+    for `[1,2,3,4]` in the target; the code leaves `[4]` — the initial contents and the first epoch
+    are gone (`fakeIOWriter.Write` publishes the buffer of the latest epoch only). -/
+theorem bytesWriter_target_all_epochs_fails :
+    ∃ (s : Start) (ops : List WOp) (written : Bytes),
+      (∀ f, s ≠ .default f) ∧
+      (specAfter s ops).emitted = (s.init ++ written).map some ∧     -- all of it was written and flushed
+      (after ⟨fun c => c, fun _ _ => 0⟩ s ops).targetBytes ≠ s.init ++ written ∧
+      (after ⟨fun c => c, fun _ _ => 0⟩ s ops).targetBytes = [4] :=
+  ⟨.bytes [1, 2] [0], [.wb [3], .flush, .wb [4], .flush], [3, 4],
+    ⟨fun f h => (by cases h), (by decide), (by decide), (by decide)⟩⟩
+
 /-! ## independence from dirty memory and from the capacity policy -/
 
 /-- Two runs of the same history under ANY two sound allocators (different capacity rounding,
